@@ -205,6 +205,28 @@ def run_hist(flavour, h, stats=None):
     return None
 
 
+def trace_hist(flavour, h):
+    """Raw behaviour of one history (every lookup answer, in order), for the
+    lock-step comparison of the two implementations in C10."""
+    W = build(flavour)
+    out = []
+    for op in h:
+        if op in LOOKSET:
+            try:
+                out.append(do_look(W, op))
+            except Exception as e:
+                out.append('EXC:' + type(e).__name__)
+        elif op == ('WARM',):
+            for l in LOOK:
+                try:
+                    out.append(do_look(W, l))
+                except Exception as e:
+                    out.append('EXC:' + type(e).__name__)
+        else:
+            do_mut(W, op)
+    return out
+
+
 def same_family(l1, l2):
     """l2 may share a cache (or a subscription to a specification) with l1."""
     k1 = l1[1] if isinstance(l1[1], tuple) else ('ob',)
